@@ -70,6 +70,14 @@ def build(case):
                 f[n][t] = levels[perm[n]] * g * (1 + 0.03 * nprng.random())
     G = np.array([Psi.T @ np.diag(f[:, t]) @ Psi for t in range(T)])
     G = 0.5 * (G + np.transpose(G, (0, 2, 1)))
+    k00 = None
+    if case.get('int00'):
+        # overall normalisation such that G(t0)[0,0] is an integer; that entry is then an external input given with an
+        # integer mean (`cov_Obs(2, ...)`), whose central value is a Python int
+        k00 = max(1, int(round(G[t0][0][0])))
+        s_ = k00 / G[t0][0][0]
+        G = G * s_
+        Psi = Psi * math.sqrt(s_)
     # observables: exact mean + symmetric noise on one or two ensembles
     ncfg = rng.randint(12, 30)
     names = ['A|r1'] if rng.random() < 0.6 else ['A|r1', 'A|r2']
@@ -88,6 +96,8 @@ def build(case):
                     x = nprng.normal(size=ncfg) * rel * abs(G[t][i][i] * G[t][j][j]) ** 0.5
                     samples.append(x - np.mean(x) + G[t][i][j])
                 o = pe.Obs(samples, names)
+                if k00 is not None and t == t0 and i == 0 and j == 0:
+                    o = pe.cov_Obs(k00, (rel * k00) ** 2, 'cvI')
                 M[i, j] = o
                 M[j, i] = o
         if anti:
@@ -812,6 +822,7 @@ def gen_case(ctx):
     case = {'what': what, 'seed': seed, 'N': N, 'T': T, 't0': t0, 'ts': ts,
             'kind': rng.choice(['exact', 'exact', 'crossing']),
             'nonsym': rng.random() < 0.3, 'forder': rng.random() < 0.4}
+    case['int00'] = (not case['nonsym']) and what != 'refuse' and rng.random() < 0.25
     r = rng.random()
     if r < 0.35:
         cand = [t for t in range(T) if t not in (t0, ts)]
